@@ -172,6 +172,9 @@ def eval_behavioural(ctx, out, kinds, problems):
                                      if any(k in kinds for k in st["kinds"]))
     cov["implementation_vs_spec_failures"] = len(mism)
     cov["model_vs_implementation_disagreements"] = len(defects)
+    tdef = [m for m in b.get("translated_defects", []) if m["op"].split(" ")[0] in kinds]
+    cov["translated_templates_evaluated"] = b.get("n_translated_ops", 0)
+    cov["translated_vs_implementation_disagreements"] = len(tdef)
     for m in pick_minimal(mism)[:3]:
         out.violations.append(behav_violation(ctx, m, b))
     if not mism:
@@ -180,6 +183,20 @@ def eval_behavioural(ctx, out, kinds, problems):
             v["no_failing_input"] = True
             v["what_no_longer_checks"] = "behavioural correspondence between lean/EnumToolsModel/Gen.lean and the derive's output"
             out.violations.append(v)
+        if not defects:
+            for m in pick_minimal(tdef)[:1]:
+                v = behav_violation(ctx, m, b, "translated-template-differs-from-implementation")
+                v["no_failing_input"] = True
+                v["what_no_longer_checks"] = ("behavioural correspondence between the function bodies translated from /repo/src "
+                                              "(lean/EnumToolsModel/Generated/Templates.lean) and the derive's output")
+                out.violations.append(v)
+    # a corpus declaration (all are inside the supported domain) that the derive does not compile any more:
+    # the items this property speaks about do not exist for it
+    cov["subjects_failed_to_compile"] = len(b.get("compile_fail", []))
+    for m in sorted(b.get("compile_fail", []), key=lambda m: len(m["decl"]))[:1]:
+        out.violations.append({"property": ctx.pid, "kind": "in-domain-declaration-does-not-compile", "declaration": m["decl"],
+                               "rustc_error": m["error"], "model": m["model"], "note": m["note"],
+                               "witness_key": m["note"].split(" cfg=")[0]})
     out.searched = f"{ops} operations of kinds {kinds} on {b['n_subjects']} subjects: implementation == specification on all"
     return mism
 
